@@ -72,16 +72,21 @@ type Run struct {
 	obligs   int
 	threads  *threadState
 	exitCode *int
+	why      string
+	qkinds   map[string]int
+	fnset     map[*ssa.Function]bool
+	methCache map[methKey]*ssa.Function
+	intrCache map[*ssa.Function]externalFn
+	intrKnown map[*ssa.Function]bool
+	ranges    map[string]rng
+	pcset    map[int]bool
+	Decided  int
 	summ     map[*ssa.Function]*FuncDef
 	concFns  map[string]bool
 }
 
 func (r *Run) enter(fn *ssa.Function) {
-	if fn.Pkg != nil {
-		r.funcs[fn.String()] = true
-	} else if fn.Origin() != nil {
-		r.funcs[fn.Origin().String()] = true
-	}
+	r.fnset[fn] = true
 }
 
 func (r *Run) step(fr *frame, instr ssa.Instruction) {
@@ -99,11 +104,35 @@ func (r *Run) addPC(c *Term) {
 		return
 	}
 	r.pc = append(r.pc, c)
+	r.learn(c)
+	r.remember(c)
 	if r.model != nil {
 		if r.pool.Eval(c, r.model, map[int]uint64{}) == 0 {
 			r.model = nil
 		}
 	}
+}
+
+// remember records the conjuncts of c so that a later branch on the same condition is free.
+func (r *Run) remember(c *Term) {
+	if r.pcset == nil {
+		r.pcset = map[int]bool{}
+	}
+	r.pcset[c.id] = true
+	if c.op == "and" {
+		r.remember(c.args[0])
+		r.remember(c.args[1])
+	}
+}
+
+func (r *Run) known(c *Term) (bool, bool) {
+	if r.pcset[c.id] {
+		return true, true
+	}
+	if r.pcset[r.pool.Not(c).id] {
+		return false, true
+	}
+	return r.decided(c)
 }
 
 func (r *Run) inputTerms() []*Term {
@@ -119,7 +148,15 @@ func (r *Run) inputTerms() []*Term {
 // sat checks pc ∧ extra and, when satisfiable, returns a model over all inputs.
 func (r *Run) sat(extra *Term) (SatResult, map[string]uint64) {
 	as := append(append([]*Term{}, r.pc...), extra)
+	r.qk(r.why)
 	return r.solver.Check(as, r.inputTerms())
+}
+
+func (r *Run) qk(k string) {
+	if r.qkinds == nil {
+		r.qkinds = map[string]int{}
+	}
+	r.qkinds[k]++
 }
 
 // branch decides which way a symbolic condition goes on this path, queueing the other side.
@@ -133,6 +170,17 @@ func (r *Run) branch(c *Term, pos string) bool {
 			r.addPC(r.pool.Not(c))
 		}
 		return d == 1
+	}
+	r.why = "branch " + pos
+	if v, ok := r.known(c); ok {
+		// implied by the variable ranges or already on the path condition: no fork, no solver call, but recorded for replay
+		r.Decided++
+		if v {
+			r.trace = append(r.trace, 1)
+		} else {
+			r.trace = append(r.trace, 0)
+		}
+		return v
 	}
 	var tOK, fOK bool
 	var tModel, fModel map[string]uint64
@@ -179,10 +227,13 @@ func (r *Run) branch(c *Term, pos string) bool {
 	if take {
 		r.trace = append(r.trace, 1)
 		r.pc = append(r.pc, c)
+		r.learn(c)
+		r.remember(c)
 		r.model = tModel
 	} else {
 		r.trace = append(r.trace, 0)
 		r.pc = append(r.pc, r.pool.Not(c))
+		r.remember(r.pool.Not(c))
 		r.model = fModel
 	}
 	return take
@@ -224,7 +275,14 @@ func (r *Run) concretize(t *Term, what string, limit int) uint64 {
 	var models []map[string]uint64
 	excl := r.pool.Bool(true)
 	probe := r.pool.Var(fmt.Sprintf("cz%d", t.id), t.w)
+	if r.model != nil {
+		v := r.pool.Eval(t, r.model, map[int]uint64{})
+		vals = append(vals, v)
+		models = append(models, r.model)
+		excl = r.pool.Not(r.pool.Cmp("=", t, r.pool.Const(t.w, v)))
+	}
 	for {
+		r.qk("concretize " + what)
 		as := append(append([]*Term{}, r.pc...), excl, r.pool.Cmp("=", probe, t))
 		res, m := r.solver.Check(as, append(r.inputTerms(), probe))
 		if res == Unsat {
@@ -257,7 +315,10 @@ func (r *Run) concretize(t *Term, what string, limit int) uint64 {
 	}
 	v := vals[idx[0]]
 	r.trace = append(r.trace, int64(v))
-	r.pc = append(r.pc, r.pool.Cmp("=", t, r.pool.Const(t.w, v)))
+	eqc := r.pool.Cmp("=", t, r.pool.Const(t.w, v))
+	r.pc = append(r.pc, eqc)
+	r.learn(eqc)
+	r.remember(eqc)
 	r.model = models[idx[0]]
 	return v
 }
@@ -306,11 +367,21 @@ func (r *Run) violation(kind, msg, pos string, model map[string]uint64) {
 
 // require checks that cond holds on every input following this path; a counter-model is a violation.
 // Afterwards cond is assumed.  Returns false if a violation was recorded.
+func (r *Run) replaying() bool { return len(r.trace) < len(r.prefix) }
+
 func (r *Run) require(cond *Term, kind, msg, pos string) bool {
-	r.obligs++
 	if cond.IsTrue() {
 		return true
 	}
+	if r.replaying() {
+		// already discharged by the run that created this prefix (same instructions, same pc)
+		if cond.IsFalse() {
+			panic(pathEnd{kind: "VIOLATION-STOP", msg: msg})
+		}
+		r.addPC(cond)
+		return true
+	}
+	r.obligs++
 	ok := true
 	neg := r.pool.Not(cond)
 	var bad map[string]uint64
@@ -362,6 +433,10 @@ func (r *Run) assume(cond *Term) {
 		panic(pathEnd{kind: "ASSUME", msg: "assumption is false"})
 	}
 	r.addPC(cond)
+	if r.replaying() {
+		return
+	}
+	r.why = "assume"
 	if r.model == nil {
 		res, m := r.sat(r.pool.Bool(true))
 		if res == Unsat {
